@@ -228,6 +228,17 @@ func Yield(site string) {
 	if !r.YieldAt(site) {
 		return
 	}
+	if r.StallPerMille > 0 && len(r.StallFor) > 0 && r.Tape.Bool(r.StallPerMille, 1000, "stall?") {
+		// the goroutine is not just preempted, it stays off the processor for a while (a
+		// descheduled thread, a stopped process): virtual time moves on before it continues
+		d := r.StallFor[r.Tape.Intn(len(r.StallFor), "stallfor")]
+		r.Fault("goroutine-stalled-between-statements")
+		res := r.Park(&simcore.Op{ID: "stall:" + tag, NoDelay: true, Deadline: time.Now().Add(d)})
+		if res.Killed {
+			runtime.Goexit()
+		}
+		return
+	}
 	res := r.Park(&simcore.Op{ID: "yield:" + tag, NoDelay: true, Ready: func() bool { return true }})
 	if res.Killed {
 		runtime.Goexit()
